@@ -50,6 +50,7 @@ Fails(a, o) ==
     CASE o = "ok" -> FALSE
       [] o = "absent" -> a.card = "one" \/ a.kind = "auth"
       [] o = "repeated" -> a.card # "many"
+      [] o = "multi" -> a.card # "many"            \* several raw segments are several elements of a list-valued path parameter
       [] o = "noctype" -> a.card # "opt"          \* an optional body without Content-Type is absent
       [] OTHER -> TRUE
 
